@@ -2,16 +2,17 @@
 # regression of the machinery on a SCRATCH copy of /repo (nothing in /repo or /verif/evidence is touched):
 # the unchanged tree, every stored seeded change, every behaviour-preserving change.  usage: tools/regress_scratch.sh [seeds|harmless|all]
 WHAT=${1:-all}
-S=${VERIF_SCRATCH:-/var/tmp}/regress-repo
-export VERIF_REPO=$S VERIF_EVIDENCE_DIR=${VERIF_SCRATCH:-/var/tmp}/regress-evidence
+S=${VERIF_SCRATCH:-/var/tmp}/regress-repo-$$
+export VERIF_REPO=$S VERIF_EVIDENCE_DIR=${VERIF_SCRATCH:-/var/tmp}/regress-evidence-$$
 sync_repo() { rsync -a --delete --exclude target --exclude .git /repo/ $S/; }
-cd /verif
-props_of() { python3 - "$1" <<'PY'
+V=$(cd "$(dirname "$0")/.." && pwd)
+cd $V
+props_of() { V=$V python3 - "$1" <<'PY'
 import sys, re, glob, os
-sys.path.insert(0, '/verif')
+sys.path.insert(0, os.environ['V'])
 from engine import registry
 files = set(l[6:].strip() for l in open(sys.argv[1]) if l.startswith('+++ b/'))
-uf = {os.path.basename(os.path.dirname(u)): set(re.findall(r"'(src/[^']+\.rs)'", open(u).read())) for u in glob.glob('/verif/contracts/*/unit.py')}
+uf = {os.path.basename(os.path.dirname(u)): set(re.findall(r"'(src/[^']+\.rs)'", open(u).read())) for u in glob.glob(os.environ['V'] + '/contracts/*/unit.py')}
 ps = [p for p, e in registry.PROPS.items() if any(uf.get(u['name'], set()) & files or (u['engine'] == 'kani' and any('window' in f or 'frontier' in f for f in files)) for u in e['units'])]
 print(' '.join(sorted(ps)))
 PY
@@ -19,16 +20,16 @@ PY
 if [ "$WHAT" = seeds ] || [ "$WHAT" = all ]; then
   echo "== seeded changes (expect exit 1; exit 2 = undecided; exit 0 = MISSED)"
   for d in seeded/*/; do id=$(basename $d); prop=${id%-*}; sync_repo
-    (cd $S && patch -s -p1 < /verif/$d/patch.diff) || { echo "$id PATCH DOES NOT APPLY"; continue; }
+    (cd $S && patch -s -p1 < $V/$d/patch.diff) || { echo "$id PATCH DOES NOT APPLY"; continue; }
     printf "%s " $id; ./check $prop --tier quick 2>&1 | grep -E -- "-> exit" | sed 's/.*-> //'
   done
 fi
 if [ "$WHAT" = harmless ] || [ "$WHAT" = all ]; then
   echo "== behaviour-preserving changes (expect no exit 1)"
   for d in harmless/*.diff; do sync_repo
-    (cd $S && patch -s -p1 < /verif/$d) || { echo "$(basename $d) PATCH DOES NOT APPLY"; continue; }
+    (cd $S && patch -s -p1 < $V/$d) || { echo "$(basename $d) PATCH DOES NOT APPLY"; continue; }
     printf "%s:" $(basename $d)
-    for p in $(props_of /verif/$d); do printf " %s=%s" $p "$(./check $p --tier quick 2>&1 | grep -E -- '-> exit' | sed 's/.*-> exit //')"; done; echo
+    for p in $(props_of $V/$d); do printf " %s=%s" $p "$(./check $p --tier quick 2>&1 | grep -E -- '-> exit' | sed 's/.*-> exit //')"; done; echo
   done
 fi
 rm -rf $S $VERIF_EVIDENCE_DIR
